@@ -189,7 +189,7 @@ Proof.
   change (v_extra view_push s (PSetOpt c (OSendBuf n)) outs) with (@nil pmsg).
   change (v_clones view_push s (PSetOpt c (OSendBuf n)) ++ v_dups view_push s (PSetOpt c (OSendBuf n))) with (@nil key).
   cbn [map op_add op_del]. rewrite app_nil_r, wsum_nil.
-  unfold push_resize_admit in H. inversion H; subst; clear H. push_view. cbn [ps_wq ps_sending ps_aq].
+  unfold push_resize_takein in H. inversion H; subst; clear H. push_view. cbn [ps_wq ps_sending ps_aq].
   set (room := n - length (firstn n (ps_wq s))).
   destruct (push_done_sub F s (PSetOpt c (OSendBuf n)) (firstn room (ps_aq s)) I4 ltac:(intros; discriminate)) as [A B].
   { apply incl_firstn_l. }
